@@ -85,13 +85,16 @@ inductive ABase where
   | rw (derived : Bool) (c : Bool)              -- `reference_wrapper<S [const]>`
   | ptr (derived : Bool) (c : Bool)             -- `S [const]*`
   | smart (q : MemQ) (c : Bool)                 -- class with `S [const]& operator*() q`
-  | other                                       -- an unrelated class, `int`
+  | unrelated                                   -- a class that has nothing to do with `S`
+  | int                                         -- `int`
   deriving Repr, DecidableEq, Inhabited
 
 structure Arg where
   b : ABase
   q : TyQ
   deriving Repr, DecidableEq, Inhabited
+
+def Arg.isInt (a : Arg) : Bool := a.b == .int
 
 /-! ### language rules -/
 namespace Lang
@@ -134,6 +137,13 @@ def converts (res : ResTy) (r : RTy) : Bool :=
   | .lint, .pr _ => false
   | .rint, .ref c rv => !c && rv                        -- an xvalue `int&&`; not an lvalue, not a const one
   | .rint, .pr _ => true                                -- a temporary
+
+/-- the arguments `A1?, int x n` fit the parameter list `(int)` of the zoo's functions and call operators: one argument
+    of type `int` (any cv/ref form converts) -/
+def unaryIntArgs (a1IsInt : Option Bool) (n : Nat) : Bool :=
+  match a1IsInt with
+  | none => n == 1
+  | some isInt => isInt && n == 0
 
 /-- `boolean-testable` for the result types of the zoo: everything but void converts to bool and has `!` -/
 def boolTestable : ResTy → Bool
@@ -228,10 +238,10 @@ def invokeWith (e : ArgExpr) (f : Callable) (fq : TyQ) (a1 : Option Arg) (n : Na
      | none => none                                                 -- both `call` overloads need `T&& t`
      | some a => (get e a.b (deduce a.q)).bind fun obj => memCall f obj n)
   | .fn _ _ =>                                                       -- `invoke_impl<Fd>::call`: `forward<F>(f)(args...)`
-    if a1.isNone && n == 1 then some (.pr .int) else none
+    if unaryIntArgs (a1.map Arg.isInt) n then some (.pr .int) else none
   | .fobj ops =>
     let t := deduce fq
-    if a1.isNone && n == 1 then (resolve ops (forwardCat t) t.c).map .pr else none
+    if unaryIntArgs (a1.map Arg.isInt) n then (resolve ops (forwardCat t) t.c).map .pr else none
   | .notCallable => none
 
 def invoke := invokeWith .forwarded
@@ -277,7 +287,7 @@ def objExpr (a : Arg) : Option (Cat × Bool) :=
   | .rw _ wc => some (.lvalue, wc)                                   -- 1.2 / 1.5: `t1.get()`
   | .ptr _ pc => some (.lvalue, pc)                                  -- 1.3 / 1.6: `*t1`, built-in
   | .smart m rc => if bindOk m (declvalCat a.q) a.q.c then some (.lvalue, rc) else none     -- 1.3 / 1.6: `operator*`
-  | .other => none
+  | .unrelated | .int => none
 
 /-- INVOKE(f, t1, ..., tN) ([func.require]/1) -/
 def invoke (f : Callable) (fq : TyQ) (a1 : Option Arg) (n : Nat) : Res :=
@@ -290,8 +300,9 @@ def invoke (f : Callable) (fq : TyQ) (a1 : Option Arg) (n : Nat) : Res :=
     (match objExpr a with
      | some (cat, c) => if n == 0 then some (.ref (c || mc) (cat != .lvalue)) else none
      | none => none)
-  | .fn _ _, none => if n == 1 then some (.pr .int) else none        -- 1.7: `f(t1, ..., tN)`
-  | .fobj ops, none => if n == 1 then (resolve ops (declvalCat fq) fq.c).map .pr else none
+  | .fn _ _, _ => if unaryIntArgs (a1.map Arg.isInt) n then some (.pr .int) else none        -- 1.7: `f(t1, ..., tN)`
+  | .fobj ops, _ =>
+    if unaryIntArgs (a1.map Arg.isInt) n then (resolve ops (declvalCat fq) fq.c).map .pr else none
   | _, _ => none
 
 def isInvocable (f : Callable) (fq : TyQ) (a1 : Option Arg) (n : Nat) : Bool := (invoke f fq a1 n).isSome
@@ -362,8 +373,8 @@ def abaseOf : String → Option ABase
   | "smN" => some (.smart q0 false)                                   -- `S& operator*();`
   | "smL" => some (.smart ⟨false, false, .lref⟩ false)                -- `S& operator*() &;`
   | "smR" => some (.smart ⟨false, false, .rref⟩ false)                -- `S& operator*() &&;`
-  | "U" => some .other
-  | "int" => some .other
+  | "U" => some .unrelated
+  | "int" => some .int
   | _ => none
 
 def tyqOf (n : Nat) : Option TyQ :=
